@@ -1,7 +1,10 @@
 use crate::fw::{Ctx, Report, Verdict};
 
+pub mod c04;
 pub mod c05;
 pub mod srvchk;
+pub mod c10;
+pub mod c11;
 pub mod c12;
 pub mod c14;
 pub mod c15;
@@ -29,8 +32,11 @@ pub fn lookup(id: &str) -> Option<Entry> {
     }
     match id {
         "C01" | "C02" | "C03" | "C08" | "C09" => e!(srvchk),
+        "C04" => e!(c04),
         "C05" => e!(c05),
         "C07" => e!(c05),
+        "C10" => e!(c10),
+        "C11" => e!(c11),
         "C12" => e!(c12),
         "C13" => e!(c12),
         "C14" => e!(c14),
